@@ -39,6 +39,11 @@ ATOMS2 = [
     ("pred", "AIs", Y, L(1)),
     ("func", "b_is", (("item", X), ("k", L(1)))),
 ]
+ATOMS_PO = [
+    ("cmp", "lt", ("call", X, "ts", ()), ("call", Y, "ts", ())),
+    ("cmp", "ge", ("call", X, "fv", ()), ("call", Y, "fv", ())),
+    ("cmp", "le", ("call", X, "ts", ()), ("call", A(X, "nxt"), "ts", ())),
+]
 ATOMS3 = [
     ("cmp", "eq", A(X, "a"), L(0)),
     ("cmp", "eq", A(X, "a"), A(Y, "a")),
@@ -100,6 +105,22 @@ def cases(tier, seed):
                     if n <= 2 and d[0] == "D5" or (n == 3 and kind == "entity" and sels == (X,) and d[0] == "sub3"):
                         out.append((q, d, "counts"))
                     if n <= 2 and d[0] in ("D5", "sub3") and kind == "entity":
+                        out.append((q, d, "reuse"))
+    # order comparisons over partially ordered values (sets by inclusion, NaN): a negated comparison is not its
+    # complementary comparison; <= 2 (3) leaves together with a literal comparison, a join and a Predicate
+    po = [ATOMS2[0], ATOMS2[3], ATOMS2[6]] + ATOMS_PO
+    memo_po = {}
+    for n in range(1, (3 if tier == "thorough" else 2) + 1):
+        for c in nnf_conds(n, po, memo_po):
+            if not any(a in fol.subconds(c) for a in ATOMS_PO):
+                continue
+            for kind, sels in SELS2:
+                q = mkq(kind, sels, c, ("x", "y"))
+                for d in (DOMS if n <= 2 else DOMS[:2]):
+                    out.append((q, d, "an"))
+                    if d[0] == "D5" and n <= 2:
+                        out.append((q, d, "counts"))
+                    if d[0] in ("D5", "sub3") and kind == "entity" and n <= 2:
                         out.append((q, d, "reuse"))
     # thorough: 4 leaves over a core of six atoms (literal comparisons on both variables, join, order, Predicate,
     # symbolic function)
